@@ -311,9 +311,14 @@ J = lambda how, then: ["join", [["src", "T"], ["enum", "JoinType", how]], {}, th
 
 SUB_U = {"cls": "inherit", "sources": {}, "steps": [["from_", [["src", "U"]]], ["select", [["col", "U", "a"]]]]}
 # sources that are themselves queries over OLD, addressed through their own alias: their fields must stay theirs
-XSRC = {"SU": ["sub", {"cls": "inherit", "sources": {}, "steps": SUB_T["steps"] + [["union", [["q", SUB_U]]]]}, "su"],
+XSRC = {"SP": ["sub", SUB_T, None, {"preused": True}],
+        "SU": ["sub", {"cls": "inherit", "sources": {}, "steps": SUB_T["steps"] + [["union", [["q", SUB_U]]]]}, "su"],
         "SQ": ["sub", SUB_T, "sq"]}
 XTEMPLATES = {
+    # a subquery over OLD that an earlier statement has given its automatic sq0, as select item / ORDER BY term / comparison operand
+    "preused_subquery_joined": [["from_", [["src", "U"]]], ["select", [UA, ["col", "SP", "a"]]], ["join", [["src", "SP"], ["enum", "JoinType", "left"]], {}, ["on", [["eq", UA, ["col", "SP", "a"]]]]]],
+    "preused_subquery_select_item": [["from_", [["src", "U"]]], ["select", [UA, ["src", "SP"]]], ["orderby", [["src", "SP"]]]],
+
     "setop_source_from_field": [["from_", [["src", "SU"]]], ["select", [["col", "SU", "a"]]], ["where", [["gt", ["col", "SU", "a"], ["raw", 1]]]]],
     "setop_source_join_field": [["from_", [["src", "U"]]], ["join", [["src", "SU"], ["enum", "JoinType", "inner"]], {}, ["on", [["eq", UA, ["col", "SU", "a"]]]]], ["select", [UA, ["col", "SU", "a"]]]],
     "subquery_source_from_field": [["from_", [["src", "SQ"]]], ["select", [["col", "SQ", "a"]]], ["orderby", [["col", "SQ", "a"]]]],
